@@ -48,9 +48,63 @@ def _u(n):
 
 
 def mk_not(c):
+    """negation normal form: double negation removed, De Morgan applied (negations sit on atoms)"""
     if c[0] == "un" and c[1] == "not":
         return c[2]
+    if c[0] == "bool":
+        return ("bool", "or" if c[1] == "and" else "and", tuple(mk_not(v) for v in c[2]))
+    if c == ("const", "True"):
+        return ("const", "False")
+    if c == ("const", "False"):
+        return ("const", "True")
     return ("un", "not", c)
+
+
+def mk_cmp(op, a, b):
+    """symmetric comparisons get their operands in a canonical order"""
+    if op in ("==", "is") and repr(b) < repr(a):
+        a, b = b, a
+    return ("cmp", op, a, b)
+
+
+def mk_bool(op, vals):
+    """flattened and / or"""
+    out = []
+    for v in vals:
+        if v[0] == "bool" and v[1] == op:
+            out += list(v[2])
+        else:
+            out.append(v)
+    return ("bool", op, tuple(out))
+
+
+def norm_comp(it, elt, depth):
+    """index loops: [f(S[i]) for i in range(len(S))] == [f(v) for v in S] when i is used only to
+    subscript S"""
+    b = ("bound", depth)
+    if it[0] == "call" and it[1] == ("name", "range") and len(it[2]) == 1 and not it[3]:
+        ln = it[2][0]
+        if ln[0] == "call" and ln[1] == ("name", "len") and len(ln[2]) == 1 and not ln[3]:
+            seq = ln[2][0]
+            marker = ("bound-elt", depth)
+            e2 = _replace_term(elt, ("sub", seq, b), marker)
+            if not _contains(e2, b):
+                return seq, _replace_term(e2, marker, b)
+    return it, elt
+
+
+def _replace_term(t, old, new):
+    if t == old:
+        return new
+    if isinstance(t, tuple):
+        return tuple(_replace_term(x, old, new) for x in t)
+    return t
+
+
+def _contains(t, x):
+    if t == x:
+        return True
+    return isinstance(t, tuple) and any(_contains(y, x) for y in t)
 
 
 def mk_if(c, a, b):
@@ -93,7 +147,7 @@ class Evaluator:
     return their first argument on valid input."""
 
     def __init__(self, classes, funcs, opaque=(), identity=None, inline_public=False, what="",
-                 decide=None):
+                 decide=None, signature=None):
         self.classes, self.funcs = classes, funcs
         self.opaque = set(opaque)
         self.identity = identity or {}
@@ -102,6 +156,10 @@ class Evaluator:
         self.stack = []
         self.depth = 0            # nesting depth of comprehension variables
         self.guards = []          # validator calls seen (as unparsed text), informational
+        # signature(callee term) -> parameter names or None: calls of callables whose definition is
+        # known are put into all-keyword form, so positional and keyword passing give one term
+        self.signature = signature or (lambda f: None)
+        self.raised = []          # path conditions (tuples of terms) under which a `raise` is hit
         # decide(condition term) -> True / False / None: assumptions under which the function is
         # evaluated (e.g. "the time points are integers"); a branch decided dead is NOT evaluated
         base = decide or (lambda c: None)
@@ -141,9 +199,9 @@ class Evaluator:
         if a.vararg or a.kwarg or a.kwonlyargs or a.posonlyargs:
             self.fail("%s: unsupported signature" % fn.name)
         names = [x.arg for x in a.args]
-        if any(d.decorator_list for d in [fn]) and not all(
-                _u(d).startswith("if_delegate_has_method") for d in fn.decorator_list):
-            self.fail("%s: decorator %s" % (fn.name, _u(fn.decorator_list[0])))
+        for d in fn.decorator_list:
+            if not (_u(d).startswith("if_delegate_has_method") or _u(d) == "staticmethod"):
+                self.fail("%s: decorator %s" % (fn.name, _u(d)))
         env = {}
         if len(args) > len(names):
             self.fail("%s: too many arguments" % fn.name)
@@ -182,13 +240,14 @@ class Evaluator:
         return self.run(fn, [SELF] + list(args), [], {})
 
     # ---- statements ----------------------------------------------------------------------------
-    def block(self, stmts, st):
+    def block(self, stmts, st, path=()):
         """-> ("ret", term, state) | ("fall", state) | ("raise",)"""
         for i, s in enumerate(stmts):
             rest = stmts[i + 1:]
             if isinstance(s, ast.Return):
                 return ("ret", NONE if s.value is None else self.expr(s.value, st), st)
             if isinstance(s, ast.Raise):
+                self.raised.append(tuple(path))
                 return ("raise",)
             if isinstance(s, ast.Pass):
                 continue
@@ -218,9 +277,9 @@ class Evaluator:
                 c = self.expr(s.test, st)
                 d = self.decide(c)
                 if d is not None:
-                    return self.block(list(s.body if d else s.orelse) + rest, st)
-                r1 = self.block(list(s.body) + rest, st.copy())
-                r2 = self.block(list(s.orelse) + rest, st.copy())
+                    return self.block(list(s.body if d else s.orelse) + rest, st, path)
+                r1 = self.block(list(s.body) + rest, st.copy(), tuple(path) + (c,))
+                r2 = self.block(list(s.orelse) + rest, st.copy(), tuple(path) + (mk_not(c),))
                 return self.merge(c, r1, r2, st)
             if isinstance(s, ast.For):
                 self.for_loop(s, st)
@@ -305,6 +364,7 @@ class Evaluator:
                 self.fail("statement in list-building loop: %s" % _u(b)[:50])
             inner.env[b.targets[0].id] = self.expr(b.value, inner)
         elt = self.expr(last.value.args[0], inner)
+        it, elt = norm_comp(it, elt, self.depth)
         self.depth -= 1
         if inner.writes != st.writes:
             self.fail("loop body writes estimator state")
@@ -345,12 +405,12 @@ class Evaluator:
         if isinstance(e, ast.Compare) and len(e.ops) == 1:
             a, b = self.expr(e.left, st), self.expr(e.comparators[0], st)
             if type(e.ops[0]) in CMPOPS:
-                return ("cmp", CMPOPS[type(e.ops[0])], a, b)
+                return mk_cmp(CMPOPS[type(e.ops[0])], a, b)
             if type(e.ops[0]) in NEGCMP:
-                return mk_not(("cmp", NEGCMP[type(e.ops[0])], a, b))
+                return mk_not(mk_cmp(NEGCMP[type(e.ops[0])], a, b))
         if isinstance(e, ast.BoolOp):
-            return ("bool", "and" if isinstance(e.op, ast.And) else "or",
-                    tuple(self.expr(v, st) for v in e.values))
+            return mk_bool("and" if isinstance(e.op, ast.And) else "or",
+                           [self.expr(v, st) for v in e.values])
         if isinstance(e, ast.IfExp) and self.decide(self.expr(e.test, st)) is not None:
             return self.expr(e.body if self.decide(self.expr(e.test, st)) else e.orelse, st)
         if isinstance(e, ast.IfExp):
@@ -368,6 +428,7 @@ class Evaluator:
             inner = st.copy()
             inner.env[g.target.id] = ("bound", self.depth)
             elt = self.expr(e.elt, inner)
+            it, elt = norm_comp(it, elt, self.depth)
             self.depth -= 1
             return ("comp", it, elt)
         if isinstance(e, ast.Call):
@@ -402,12 +463,17 @@ class Evaluator:
                 self.fail("%s called with keyword %s" % (fname, bad[0]))
             self.guards.append(_u(e))
             return args[0] if args else NONE
+        # the parent constructor: an effect outside the class under evaluation
+        if effect and f[0] == "attr" and f[2] == "__init__" and f[1][0] == "call" \
+                and f[1][1] == ("name", "super"):
+            return NONE
         target = None
         if f[0] == "attr" and f[1] == SELF and fname not in self.opaque:
             m = self.method(fname)
             if m is not None and (fname.startswith("_") and not fname.startswith("__")
                                   or self.inline_public):
-                target, args = m, [SELF] + args
+                static = any(_u(d) == "staticmethod" for d in m.decorator_list)
+                target, args = m, (args if static else [SELF] + args)
         elif f[0] == "name" and fname in self.funcs and fname not in self.opaque:
             target = self.funcs[fname]
         if target is not None:
@@ -416,6 +482,29 @@ class Evaluator:
             return ret
         if effect:
             self.fail("call evaluated for its effect is not understood: %s" % _u(e)[:60])
+        return self.canon_call(f, args, kwargs)
+
+    def canon_call(self, f, args, kwargs):
+        """all-keyword form when the callee's parameter names are known"""
+        params = None
+        if f[0] == "attr" and f[1] == SELF:
+            m = self.method(f[2])
+            if m is not None:
+                a = m.args
+                if not (a.vararg or a.kwarg or a.kwonlyargs or a.posonlyargs):
+                    static = any(_u(d) == "staticmethod" for d in m.decorator_list)
+                    params = [x.arg for x in a.args][0 if static else 1:]
+        if params is None:
+            params = self.signature(f)
+        if params is not None:
+            if len(args) > len(params):
+                self.fail("too many positional arguments for %s" % show(f))
+            kw = dict(zip(params, args))
+            for k, v in kwargs:
+                if k in kw or k not in params:
+                    self.fail("argument %s of %s" % (k, show(f)))
+                kw[k] = v
+            return ("call", f, (), tuple(sorted(kw.items())))
         return ("call", f, tuple(args), tuple(sorted(kwargs)))
 
 
@@ -432,7 +521,7 @@ def _find_if(t, under_comp=False):
         return _find_if(t[1])
     if t[0] in ("sym", "name", "const", "bound"):
         return None
-    for x in t[1:]:
+    for x in (t[1:] if isinstance(t[0], str) else t):
         if isinstance(x, tuple):
             r = _find_if(x)
             if r is not None:
@@ -454,6 +543,11 @@ def lift_if(t, limit=16):
     if limit == 0:
         raise Unsupported("too many nested conditionals")
     if t[0] == "if":
+        inner = _find_if(t[1])
+        if inner is not None:         # a conditional inside the condition: split on it first
+            return mk_if(inner[1],
+                         lift_if(("if", _replace(t[1], inner, inner[2]), t[2], t[3]), limit - 1),
+                         lift_if(("if", _replace(t[1], inner, inner[3]), t[2], t[3]), limit - 1))
         return mk_if(t[1], lift_if(t[2], limit - 1), lift_if(t[3], limit - 1))
     inner = _find_if(t)
     if inner is None:
@@ -461,6 +555,38 @@ def lift_if(t, limit=16):
     c = inner[1]
     return mk_if(c, lift_if(_replace(t, inner, inner[2]), limit - 1),
                  lift_if(_replace(t, inner, inner[3]), limit - 1))
+
+
+def _conds(t, acc):
+    if isinstance(t, tuple) and t and t[0] == "if":
+        if t[1] not in acc:
+            acc.append(t[1])
+        _conds(t[2], acc)
+        _conds(t[3], acc)
+    return acc
+
+
+def _restrict(t, c, val):
+    if isinstance(t, tuple) and t and t[0] == "if":
+        if t[1] == c:
+            return _restrict(t[2] if val else t[3], c, val)
+        return mk_if(t[1], _restrict(t[2], c, val), _restrict(t[3], c, val))
+    return t
+
+
+def normal(t):
+    """canonical decision tree of a term: conditionals lifted to the top, tested in a fixed order
+    (by rendering), equal branches merged - two terms that choose the same leaves under the same
+    conditions get the same normal form however the choices were nested"""
+    t = lift_if(t)
+    conds = sorted(_conds(t, []), key=repr)
+
+    def build(u, cs):
+        if not cs or not (isinstance(u, tuple) and u and u[0] == "if"):
+            return u
+        c = cs[0]
+        return mk_if(c, build(_restrict(u, c, True), cs[1:]), build(_restrict(u, c, False), cs[1:]))
+    return build(t, conds)
 
 
 def show(t):
@@ -505,9 +631,83 @@ def module_parts(mod, cname):
     if cname not in by:
         raise Unsupported("class %s not found" % cname)
     out, todo = [], [cname]
+    # (module_signatures below resolves the parameter names of imported callables)
     while todo:
         c = todo.pop(0)
         if c in by and by[c] not in out:
             out.append(by[c])
             todo += [_u(b) for b in by[c].bases]
     return out, funcs
+
+
+def _params(node):
+    """parameter names of a function, or of a class's __init__ without self"""
+    if isinstance(node, ast.ClassDef):
+        for n in node.body:
+            if isinstance(n, ast.FunctionDef) and n.name == "__init__":
+                p = _params(n)
+                return None if p is None else p[1:]
+        return None
+    a = node.args
+    if a.vararg or a.kwarg or a.kwonlyargs or a.posonlyargs:
+        return None
+    return [x.arg for x in a.args]
+
+
+def _module_file(repo, dotted):
+    import os
+    base = os.path.join(repo, *dotted.split("."))
+    for p in (base + ".py", os.path.join(base, "__init__.py")):
+        if os.path.isfile(p):
+            return p
+    return None
+
+
+def _resolve(repo, dotted, name, depth=0):
+    """definition of `name` in module `dotted` of the repo, following re-exports"""
+    if depth > 4:
+        return None
+    path = _module_file(repo, dotted)
+    if path is None:
+        return None
+    with open(path) as f:
+        mod = ast.parse(f.read())
+    for n in mod.body:
+        if isinstance(n, (ast.FunctionDef, ast.ClassDef)) and n.name == name:
+            return n
+    pkg = dotted if path.endswith("__init__.py") else dotted.rsplit(".", 1)[0]
+    for n in mod.body:
+        if isinstance(n, ast.ImportFrom) and any((a.asname or a.name) == name for a in n.names):
+            orig = [a.name for a in n.names if (a.asname or a.name) == name][0]
+            if n.level:
+                parts = pkg.split(".")
+                parts = parts[:len(parts) - (n.level - 1)]
+                target = ".".join(parts + ([n.module] if n.module else []))
+            else:
+                target = n.module
+            return _resolve(repo, target, orig, depth + 1)
+    return None
+
+
+def module_signatures(repo, mod, external=None):
+    """signature(callee term) for a module: names imported from the repo are resolved to their
+    definitions (function parameters / class __init__ parameters); `external` gives the parameter
+    names of the few third-party callables the anchored code uses (keyed by their rendering)"""
+    external = external or {}
+    table = {}
+    for n in mod.body:
+        if isinstance(n, ast.ImportFrom) and n.level == 0 and n.module \
+                and n.module.split(".")[0] == "sktime":
+            for a in n.names:
+                d = _resolve(repo, n.module, a.name)
+                if d is not None and _params(d) is not None:
+                    table[a.asname or a.name] = _params(d)
+    for n in mod.body:
+        if isinstance(n, (ast.FunctionDef, ast.ClassDef)) and _params(n) is not None:
+            table[n.name] = _params(n)
+
+    def signature(f):
+        if f[0] == "name" and f[1] in table:
+            return table[f[1]]
+        return external.get(show(f))
+    return signature
